@@ -316,6 +316,25 @@ def check(col, prog, tier, profile, fixture=None):
         evs = st.event_list()
         sw = [e for e in evs if e.kind == "call" and e.extra.get("name") == "swap"]
         nx = [e for e in evs if e.kind == "call" and e.extra.get("name") == "next" and (e.extra.get("trait") or "").endswith("Rand")]
+        if not rng_iter and sw and nx and len(I.loops) == 1:
+            # manual counter: let mut i = 1; while i < len { ..; i += 1 }
+            head = list(I.loops)[0]
+            i = sw[0].args[1]
+            if i[0] == "phi" and i[1] == head:
+                il = i[2]
+                ent = [en.get(il) for en in I.loop_entry.get(head, [])]
+                step = st.env.get(il) == ("bin", "Add", i, mk_int(1))
+                guard = False
+                for f in st.facts:
+                    t = f[1]
+                    if f[0] == "eq" and isinstance(t, tuple) and t[0] == "bin":
+                        if (t[1] == "Lt" and f[2] == 1 and t[2] == i and t[3][0] == "len") or (t[1] == "Ge" and f[2] == 0 and t[2] == i and t[3][0] == "len") or (t[1] == "Gt" and f[2] == 1 and t[3] == i and t[2][0] == "len"):
+                            guard = True
+                # the loop exits only when i >= len: every final state after the loop has the negated guard
+                rngok = bool(ent) and all(x == mk_int(1) for x in ent) and step and guard
+                j = sw[0].args[2]
+                a = nx[0].args[1]
+                shape_ok = (j == nx[0].res or (nx[0].extra.get("uid") is not None and j == nx[0].res)) and a == ("rangeincl", mk_int(0), i)
         if rng_iter and sw and nx:
             r = rng_iter[0]
             ln = r[2]
@@ -340,7 +359,8 @@ def check(col, prog, tier, profile, fixture=None):
     fb = impls.get(("Range", "f64"))
     if fb is None:
         raise Anchor("no Range<f64> impl")
-    I = util.analyse(fb)
+    free_ = [f_ for f_ in crate.bodies if not f_.is_closure and f_.kind == "Fn" and f_.container is None and f_.vis != "pub" and not util.self_recursive(f_)]
+    I = util.analyser(free_)(fb)
     s_ = ("param", 1, I.names.get(1))
     start, end = ("proj", 0, s_), ("proj", 1, s_)
     for n, st in enumerate(I.final_states):
@@ -352,6 +372,17 @@ def check(col, prog, tier, profile, fixture=None):
             # range length overflows), `x < end` does not
             ok = ("eq", ("fcmp", "Lt", r, end), 1) in st.facts or ("eq", ("fcmp", "Gt", end, r), 1) in st.facts
             why = "returned under the fact x < end"
+            if not ok:
+                # x.partial_cmp(&end) == Some(Less)
+                for e_ in st.event_list():
+                    if e_.kind == "call" and e_.extra.get("name") == "partial_cmp" and tuple((e_.extra.get("argvals") or [None, None])[:2]) == (r, end):
+                        pc_ = e_.res
+                        some = ("eq", ("discr", pc_), 1) in st.facts
+                        pay = ("proj", 0, ("down", pc_, 1))
+                        less = any(f[0] == "eq" and f[1] in (pay, ("discr", pay)) and f[2] in (-1, 255) for f in st.facts)
+                        if some and less:
+                            ok = True
+                            why = "returned under partial_cmp(x, end) == Some(Less)"
         key = "%s|upper-bound|path%d" % (fk(fb), n)
         if ok:
             col.ok("A4" + sfx, fb.loc(), key, why)
@@ -359,7 +390,9 @@ def check(col, prog, tier, profile, fixture=None):
             col.violation("A4" + sfx, "%s|upper-bound" % fk(fb), fb.loc(), "a half-open float draw can return a value not known to be < end (rounding of ratio*len+start reaches `end`, e.g. raw output u64::MAX): %s" % tstr(r)[:160])
 
     # ---------------- A5
-    I = util.analyse(nextraw)
+    # every non-recursive function of the generator's crate is inlined: the recurrence may live in a helper
+    gen_helpers = [f_ for f_ in nextraw.crate.bodies if not f_.is_closure and f_.kind in ("Fn", "AssocFn") and f_.key != nextraw.key and not util.self_recursive(f_) and not (nextraw.crate.impl_of(f_) or {}).get("derived")]
+    I = util.analyser(gen_helpers)(nextraw)
     for st in I.final_states:
         out = util.ret_term(st)
         stores = [e for e in st.event_list() if e.kind == "store"]
@@ -397,14 +430,30 @@ def _tfunction(t):
 
 def _ranges(col, crate, impls, sfx):
     fk = util.fkey
-    types = ["i8", "u8", "i16", "u16", "i32", "u32", "i64", "u64", "isize", "usize"]
+    types = ["u8", "u16", "u32", "u64", "usize", "i8", "i16", "i32", "i64", "isize"]   # unsigned first: a signed impl may draw through the unsigned one
     proven = {}
+    free = [f_ for f_ in crate.bodies if not f_.is_closure and f_.kind == "Fn" and f_.container is None and f_.vis != "pub" and not util.self_recursive(f_)]
+    An = util.analyser(free)
+
+    def proven_range_summary(ev, t, I):
+        """a call of an already proven Range<T> impl returns a value in [start, end - 1] (it asserts start < end)"""
+        nm = str(t[1])
+        m = [ty_ for ty_ in proven if proven[ty_] and ("ops::Range<%s>" % ty_) in nm]
+        a = t[2][0]
+        if not m or not (a[0] == "agg" and a[1][1].endswith("ops::Range")):
+            return None
+        s, e = ev.ev(a[2][0], I), ev.ev(a[2][1], I)
+        if s is None or e is None or s.wrap or e.wrap:
+            return None
+        # the callee's own assertion start < end must hold for the delegation to return at all
+        return Val(s.lo, e.hi - L2(0, 0, 1))
+
     for ty in types:
         b = impls.get(("Range", ty))
         if b is None:
             raise Anchor("no Randomable impl for Range<%s>" % ty)
         lo, hi, bits = TY[ty]
-        I = util.analyse(b)
+        I = An(b)
         s_ = ("param", 1, I.names.get(1))
         rng = ("param", 2, I.names.get(2))
         S, E = L2(1, 0, 0), L2(0, 1, 0)
@@ -422,7 +471,7 @@ def _ranges(col, crate, impls, sfx):
             continue
         okall = True
         for st in finals:
-            ev = RangeEval(dom, base)
+            ev = RangeEval(dom, base, {"gen_from_u64": proven_range_summary})
             r = util.ret_term(st)
             v = ev.ev(r, I)
             key = "%s|membership" % fk(b)
@@ -463,7 +512,7 @@ def _ranges(col, crate, impls, sfx):
             b = impls.get((kind, ty))
             if b is None:
                 raise Anchor("no Randomable impl for %s<%s>" % (kind, ty))
-            I = util.analyse(b)
+            I = An(b)
             s_ = ("param", 1, I.names.get(1))
             rng = ("param", 2, I.names.get(2))
             I.tys[rng] = "u64"
@@ -487,6 +536,8 @@ def _ranges(col, crate, impls, sfx):
                     lo_b, hi_b = S, E
                     for t2 in [r] + [f[1] for f in st.facts if f[0] in ("eq", "ne")]:
                         for s2 in [t2] + list(subterms(t2)):
+                            if s2[0] == "proj" and s2[1] in (0, 1) and isinstance(s2[2], tuple) and s2[2][0] == "call" and str(s2[2][1]).endswith("RangeInclusive::<Idx>::into_inner"):
+                                base[s2] = Val(S, S) if s2[1] == 0 else Val(E, E)
                             if s2[0] == "load" and s2[2][0] == "deref" and s2[2][1][0] == "call":
                                 nm = str(s2[2][1][1])
                                 if nm.endswith("RangeInclusive::<Idx>::start"):
@@ -496,6 +547,13 @@ def _ranges(col, crate, impls, sfx):
                     # branch facts  start != MIN / end != MAX
                     for f in st.facts:
                         t2 = f[1]
+                        if f[0] in ("eq", "ne") and t2 in base and isinstance(f[2], int) and not isinstance(f[2], bool):
+                            # `match (start, end)` on the values themselves: t == k / t != k
+                            kk = f[2]
+                            if kk >= (1 << (bits - 1)) and lo < 0:
+                                kk -= 1 << bits
+                            t2 = ("bin", "Ne", t2, ("int", kk))
+                            f = ("eq", t2, 1 if f[0] == "ne" else 0)
                         if f[0] == "eq" and isinstance(t2, tuple) and t2[0] == "bin" and t2[1] == "Ne" and t2[2] in base and t2[3][0] == "int":
                             v0 = base[t2[2]]
                             if f[2] == 1 and t2[3][1] == lo and v0.lo.a == 1:
@@ -511,6 +569,8 @@ def _ranges(col, crate, impls, sfx):
 
                 def call_summary(ev, t, I, kind=kind, ty=ty):
                     nm = str(t[1])
+                    if "ops::RangeFull" in nm:
+                        return Val(L2(0, 0, TY[ty][0]), L2(0, 0, TY[ty][1]))
                     if "ops::Range<" in nm:
                         return range_summary(ev, t, I)
                     if "ops::RangeInclusive<" in nm and incl_ok:
